@@ -131,7 +131,8 @@ class Builder(NullCell):
     def store_var_int(self, value: int, bit_length: int):
         if value == 0:
             return self.store_uint(0, bit_length)
-        byte_length = math.ceil(value.bit_length() / 8)
+        # minimal two's complement size: magnitude bits plus the sign bit
+        byte_length = math.ceil(((value if value >= 0 else ~value).bit_length() + 1) / 8)
         return self.store_uint(byte_length, bit_length).store_int(value, byte_length * 8)
 
     def store_coins(self, amount: int):
